@@ -1,0 +1,23 @@
+//go:build verif
+
+// Verification hook (build tag "verif"): a pure-Go commitSleep, identical to
+// commit_noasm.go, so that packages depending on pkg/sleep can be compiled for
+// native counterexample replay on toolchains that reject commit_amd64.s.
+
+package sleep
+
+import "sync/atomic"
+
+func commitSleep(g uintptr, waitingG *uintptr) bool {
+	for {
+		// Check if the wait was aborted.
+		if atomic.LoadUintptr(waitingG) == 0 {
+			return false
+		}
+
+		// Try to store the G so that wakers know who to wake.
+		if atomic.CompareAndSwapUintptr(waitingG, preparingG, g) {
+			return true
+		}
+	}
+}
